@@ -325,6 +325,9 @@ def oracle_meta(case: dict) -> Outcome:
                 out.fail("C05.meta.raises", "blocked and pre-split optimizers differ in raising", f"step {si}: blocked={ea} presplit={eb}")
             break
         amp = max(amp, _amplification(A, pa, cfg))
+        if cfg["precond"].get("method") == "qr":
+            # orthogonal iteration starts from the previous basis: what an earlier refresh left is amplified again by every later one
+            amp = amp * (1.0 + 1.0 / (si + 1)) if si else amp
         j = 0
         for pi, (md, sls) in enumerate(layout):
             for sl in sls:
